@@ -316,12 +316,55 @@ def group_task(task):
     return sh
 
 
+def frac_task(task):
+    """co-classes on values with fractional seconds: the nanoseconds are a finer field too, and the rest of the result is
+    what the same value without its fraction rounds to (differential, no oracle)"""
+    bindir, seed, n = task
+    import random
+    rng = random.Random(seed)
+    sh = Shard()
+    for spec in ("/1d", "/-1d", "/1mo", "/-1mo", "/1q", "/1y", "/1h", "/-1h", "/15m", "/-5m", "/1b"):
+        vals = []
+        for _ in range(n):
+            o = rng.randrange(cal.ORD_MIN + 800, cal.ORD_MAX - 2000)
+            sod = rng.randrange(1, 86399)
+            if sod % 300 == 0:
+                sod += 7
+            vals.append("%sT%02d:%02d:%02d.%09d" % (cal.Day(o).ymd(), sod // 3600, sod // 60 % 60, sod % 60, rng.choice([500000000, 1, 999999999, 250000000])))
+        for nx in ([], ["-n"]):
+            argv = [str(bindir / "dround")] + nx + ["-i", "%FT%T.%N", "-f", "%FT%T.%N", "--", spec]
+            r = run(argv, stdin=("\n".join(vals) + "\n").encode(), cpu=30, wall=120)
+            argv2 = [str(bindir / "dround")] + nx + ["-f", "%FT%T", "--", spec]
+            r2 = run(argv2, stdin=("\n".join(v[:19] for v in vals) + "\n").encode(), cpu=30, wall=120)
+            sh.procs += 2
+            if sh.check_san(r, "san", "round:frac:san") or sh.check_san(r2, "san", "round:frac:san"):
+                continue
+            o1 = r.out.decode("latin-1").split("\n")[:-1]
+            o2 = r2.out.decode("latin-1").split("\n")[:-1]
+            for k, v in enumerate(vals):
+                a = o1[k] if k < len(o1) else None
+                b = o2[k] if k < len(o2) else None
+                c = ("frac", spec.lstrip("/-0123456789"), "-n" if nx else "plain", "down" if "-" in spec else "up")
+                if a is not None and b is not None and a == b + ".000000000":
+                    sh.ok("round", c)
+                else:
+                    sh.bad("round", "round:frac:%s:%s" % (c[1], "ns-kept" if a and b and a.startswith(b) else "differs"),
+                           "echo %s | %s -> %r; without the fraction the value rounds to %r, and the nanoseconds are a finer field" %
+                           (v, core.shq(argv), a, b), dict(argv=argv, stdin=v, expected=(b or "") + ".000000000", observed=a), cls=c)
+    return sh
+
+
+def _dispatch(t):
+    return frac_task(t[1]) if t[0] == "frac" else group_task(t)
+
+
 def main(tier, seed):
     ctx = core.Ctx("C16", tier, seed)
     bindir = ctx.bin("san")
     quick = tier == "quick"
     tasks = [(bindir, seed * 7919 + i, 40 if quick else 120, 60 if quick else 120) for i in range(64 if quick else 640)]
-    for sh in core.pmap(group_task, tasks):
+    tasks += [("frac", (bindir, seed * 31 + i, 25)) for i in range(2 if quick else 20)]
+    for sh in core.pmap(_dispatch, tasks):
         ctx.merge(sh)
     ctx.rule = ("events = one (input value, rounding spec list, -n) evaluation by the real dround reading the value from stdin; "
                 "oracle: nearest candidate on the requested side, computed on ordinals/seconds (weekday: days with that weekday; "
@@ -330,7 +373,7 @@ def main(tier, seed):
                 "values: instants congruent to the target with finer fields kept; co-classes /N h,m,s, /1d, /1b, /N mo,q,y: "
                 "multiples of N units with finer fields zero); 'idem' = the tool's own output rounded again by the tool is "
                 "unchanged (no oracle); 'strict' = with -n the output differs from the input; several specs compose left to "
-                "right. distinct_nontrivial = distinct (input kind, target kinds, -n, direction, moved/unchanged, carry class)")
+                "right; co-classes from hours up on values with fractional seconds: the nanoseconds are zero and the rest is what the value without fraction rounds to. distinct_nontrivial = distinct (input kind, target kinds, -n, direction, moved/unchanged, carry class)")
     ctx.assumptions = ["day-of-month, month, quarter and month/quarter/year co-class targets are judged on ymd, ywd and yd "
                        "inputs, week targets on ywd inputs, weekday targets on ymd/ywd/yd/ymcw inputs; month-based targets "
                        "on ymcw and business-day-of-month targets are not judged",
